@@ -83,3 +83,32 @@ def GI(c):
             and c._inbound_flow_control_window_manager.current_window_size <= MAXWIN
             and c._inbound_flow_control_window_manager._bytes_processed >= 0
             and all(STREAM_INV(c, c.streams[k], k) for k in c.streams))
+
+
+def all_frames_are(frames, start, name):
+    return all(class_name(f) == name for f in frames[start:])
+
+
+def class_name(x):
+    return type(x).__name__
+
+
+# ---------------------------------------------------------------------------
+# Settings abstraction (C11): current value = head of the per-key deque
+def setting_current(s, key):
+    return s._settings[key][0]
+
+
+def setting_has(s, key):
+    return (key in s._settings) and len(s._settings[key]) >= 1 and s._settings[key][0] is not None
+
+
+def SETTINGS_OK(s):
+    """Representation invariant of a Settings object: the five RFC defaults are
+    always present with valid current values; every stored queue is non-empty."""
+    return (all(len(s._settings[k]) >= 1 for k in s._settings)
+            and setting_has(s, S_HEADER_TABLE_SIZE) and setting_current(s, S_HEADER_TABLE_SIZE) >= 0
+            and setting_has(s, S_ENABLE_PUSH) and 0 <= setting_current(s, S_ENABLE_PUSH) and setting_current(s, S_ENABLE_PUSH) <= 1
+            and setting_has(s, S_INITIAL_WINDOW_SIZE) and 0 <= setting_current(s, S_INITIAL_WINDOW_SIZE) and setting_current(s, S_INITIAL_WINDOW_SIZE) <= MAXWIN
+            and setting_has(s, S_MAX_FRAME_SIZE) and 16384 <= setting_current(s, S_MAX_FRAME_SIZE) and setting_current(s, S_MAX_FRAME_SIZE) <= 16777215
+            and setting_has(s, S_ENABLE_CONNECT_PROTOCOL) and 0 <= setting_current(s, S_ENABLE_CONNECT_PROTOCOL) and setting_current(s, S_ENABLE_CONNECT_PROTOCOL) <= 1)
